@@ -4,7 +4,8 @@ from .values import Infeasible, is_z3, b2z, FPS as FPS_
 
 
 class Oblig:
-    def __init__(self, kind, name, goal, pc, universals, iterms, path, info=None):
+    def __init__(self, kind, name, goal, pc, universals, iterms, path, info=None, axioms=None):
+        self.axioms = axioms if axioms is not None else []
         self.kind = kind
         self.name = name
         self.goal = goal
@@ -19,7 +20,7 @@ class Oblig:
         self.model = None
 
     def hyps(self, quantified=True):
-        hs = list(self.pc)
+        hs = list(self.pc) + list(self.axioms)
         terms = list(self.iterms)      # instantiating a fact must not feed new terms back in
         for U in self.universals:
             for t in terms:
@@ -63,6 +64,7 @@ class Ctx:
         self.no_branch_record = False
         self.frozen_iterms = 0
         self.dual = False
+        self.axioms = []     # true facts about uninterpreted math functions (shared by every obligation)
         self.aux = []       # (name, term): results of assumed callees etc. (for counter-model replay)
 
     # -- symbols -----------------------------------------------------------------------------
@@ -139,7 +141,7 @@ class Ctx:
             self.iterms.append(t)
 
     def hyps(self):
-        hs = list(self.pc)
+        hs = list(self.pc) + list(self.axioms)
         terms = list(self.iterms)      # instantiating a fact must not feed new terms back in
         for U in self.universals:
             for t in terms:
@@ -239,6 +241,6 @@ class Ctx:
         if isinstance(goal, bool):
             goal = z3.BoolVal(goal)
         ob = Oblig(kind, name, goal, list(self.pc), list(self.universals), self.iterms,
-                   tuple(self.taken), info)
+                   tuple(self.taken), info, self.axioms)
         self.obligs.append(ob)
         return ob
